@@ -63,14 +63,20 @@ def _case(job):
 
 
 def _gen(job):
-    """seeded pairs whose ratio is 0..7% below the minimum of a random (large, very_readable) setting"""
+    """seeded pairs whose ratio is 0..7% below the minimum of a random (large, very_readable) setting; texts: 60% uniform, 25% off-grey (slight cast), 15% near white / black"""
     seed, n = job
     from oracles import colour as oc
     rng = random.Random(seed); out = []
     while len(out) < n:
         large, very = rng.random() < 0.5, rng.random() < 0.5
         mn = oc.required_min(large, very)
-        t = rtc.rand_rgb(rng); b = rtc.rand_rgb(rng) if rng.random() < 0.7 else rtc.grey(rng.randrange(256))
+        k = rng.random()
+        if k < 0.6: t = rtc.rand_rgb(rng)
+        elif k < 0.85:      # off-grey texts: a slight colour cast (tiny chroma, hue still defined)
+            g = rng.randrange(256); t = tuple(max(0, min(255, g + rng.randrange(-4, 5))) for _ in range(3))
+        else:               # texts close to white or black (little lightness head-room on one side)
+            base = rng.choice([rng.randrange(0, 30), rng.randrange(226, 256)]); t = tuple(max(0, min(255, base + rng.randrange(-12, 13))) for _ in range(3))
+        b = rtc.rand_rgb(rng) if rng.random() < 0.7 else rtc.grey(rng.randrange(256))
         r = oc.contrast(oc.FloatK, t, b)
         if 0.93 * mn <= r < mn: out.append((t, b, large, very))
     return out
